@@ -246,6 +246,37 @@ def n5(run, tu):
     run.ob('N5/size-overflow-detected-exactly', fn, '*optvarsize becomes max(old, offset + itemsize * length)', not bad_value, site, str(bad_value[:2]))
 
 
+def n6(run, tu):
+    """ffi.new sizes the allocation for a flexible array wherever it sits: the "contains an open-ended array" mark of a field's type is
+    passed on to the enclosing type for nested structs AND nested unions (direct_newp and the sizing pre-pass only look at the mark)"""
+    import re
+    fn = 'b_complete_struct_or_union_lock_held'
+    g = cfg_of(tu, fn)
+    F = rules.macro_flags(tu, 'CT_')
+    var = F['CT_WITH_VAR_ARRAY']
+    sites = [n for n in g.nodes if n.ast is not None and n.kind == 'stmt' and stmt_text(n.ast).replace(' ', '') == 'ct->ct_flags_mut|=%d' % var]
+    run.need(len(sites) >= 2, '%s: the two places that mark the type (own open array, nested member) not found' % fn)
+    nested = [n for n in sites if any(f.startswith('T:') and 'ftype->ct_flags_mut & %d' % var in f for f in g.fact_texts(n.id))]
+    run.need(len(nested) == 1, '%s: the propagation of the mark from a member\'s type not found' % fn)
+    # reachability of that statement for a member whose type is a struct / a union carrying the mark, by constant propagation from the
+    # first test of the member's kind (whatever way the tests are written)
+    from ..cast import absint
+    from ..cast.absint import Con
+    arr = F['CT_ARRAY']
+    heads = [n for n, l in g.dominating_facts(nested[0].id) if n.kind == 'cond' and l == 'F' and cx.render(n.ast).replace(' ', '') == 'ftype->ct_size<0']
+    run.need(len(heads) >= 1, '%s: the test chain on the member type not found' % fn)
+    masks = []
+    for kind in ('CT_STRUCT', 'CT_UNION'):
+        env = {'ftype->ct_flags': Con(F[kind], 32, True), 'ftype->ct_flags_mut': Con(var, 32, True), 'ftype->ct_size': Con(16, 64, True)}
+        it = absint.Interp(g, env, {}, const_vars=set(env))
+        it.run_from(heads[0].id, env, set())
+        if nested[0].id in it.in_state:
+            masks.append(kind)
+    ok = masks == ['CT_STRUCT', 'CT_UNION']
+    run.ob('N6/open-array-mark-propagates-through-nested-structs-and-unions', fn, 'if (ftype is a struct or union && ftype has the mark) ct gets the mark', ok, tu.where(nested[0].ast),
+           'the mark is only passed on for members of kind %s: a struct whose member is a union ending in `T y[]` is allocated without room for y' % masks)
+
+
 def check(run):
     run.explanation = (
         'Who-passes-dont_clear rule over all callers of allocate_owning_object with a structural proof for each non-zero '
@@ -259,6 +290,7 @@ def check(run):
     n3(run, tu)
     n4(run, tu)
     n5(run, tu)
+    n6(run, tu)
     run.min_instances('N4', 2)
     run.min_instances('N5', 3)
     run.min_instances('N1', 9)
